@@ -3,6 +3,7 @@ Oracles: each property's decidable predicate evaluated on the REAL code's output
 Line:  id|oracle|Cxx|<kind>|<args…>|=>|<go result>   ->   id|ok   id|skip:<why>   id|fail:<clause>
 -/
 import Driver.Eval
+import Driver.SpecWalk
 import RosedVerif.Gem.Ref13
 namespace RosedVerif.Driver
 open RosedVerif
@@ -59,6 +60,20 @@ def oracleLine (pid kind : String) (args : List String) (go : String) : String :
       let exp := expectProbe r
       if exp == go then "ok" else s!"fail:probe behaviour differs from class {(ref13Fast r).toNat}; expected {exp}"
     | none => "skip:parse"
+  | "C04", "prog", [steps] =>
+    walk ["chars", "charsfrom", "charsto", "charcount", "commit", "commitall", "string", "insert"] steps go
+  | "C04", "r2i", [a, b, c] =>
+    match a.toInt?, parseInt b, parseInt c with
+    | some n, some s, some e =>
+      if n < 0 then "skip:negative-size" else
+      let (s', e') := Spec.normRangeRaw n s e
+      if s!"{s'},{e'}" == go then "ok" else s!"fail:range normalisation expected {s'},{e'}"
+    | _, _, _ => "skip:parse"
+  | "C05", "prog", [steps] | "C05", "pool", [steps] =>
+    walk ["chars", "charsfrom", "charsto", "lines", "linesfrom", "linesto", "commit", "commitall", "string"] steps go
+  | "C09", "prog", [steps] => walk ["insert", "delete", "overtype"] steps go
+  | "C10", "prog", [steps] =>
+    walk ["lines", "linesfrom", "linesto", "linecount", "apply", "commit", "string"] steps go
   | _, _, _ => "skip:no-oracle"
 
 end RosedVerif.Driver
